@@ -319,6 +319,28 @@ class Ctx:
         return 0
 
 
+def run_group(cmd, timeout, **kw):
+    """subprocess.run in its own session; the whole process group (pool children, grandchildren) is killed
+    when the command finishes or times out, so nothing outlives a case.  -> (returncode | "timeout", stdout, stderr)"""
+    import signal
+    p = subprocess.Popen(cmd, start_new_session=True, stdout=subprocess.PIPE, stderr=subprocess.PIPE, **kw)
+    try:
+        out, err = p.communicate(timeout=timeout)
+        rc = p.returncode
+    except subprocess.TimeoutExpired:
+        rc, out, err = "timeout", b"", b""
+    finally:
+        try:
+            os.killpg(p.pid, signal.SIGKILL)
+        except OSError:
+            pass
+        try:
+            p.communicate(timeout=5)
+        except Exception:  # noqa: BLE001
+            pass
+    return rc, out, err
+
+
 def guard(fn):
     """Decorator for case functions: an exception inside the *harness* is inconclusive."""
     def wrapped(case, wctx):
